@@ -280,7 +280,7 @@ func (i *interpreter) runPath(sol *solver, item workItem, opts Options, params m
 	}
 	p.rec.Steps = p.steps
 	p.rec.Decisions = len(p.trace)
-	p.rec.Model = p.model
+	p.rec.Model = p.fullModel(p.model)
 	p.rec.Trace = p.trace
 	p.rec.Observed = p.renderObs(p.model)
 	for l := range p.reach {
